@@ -173,6 +173,11 @@ form('tpl-bare-plus-then-effect', { ops: ['tpl'], kf: 'D6', cfg: 'TPL_ONLY' }, F
 form('tpl-receiver-concat-plus-arg', { ops: ['tpl', 'concat', '+'] }, F => `\`\${${F.s()}}:\`.concat(${F.s()} + ${F.f()})`)
 form('tpl-receiver-replace-method-args', { ops: ['tpl', 'replace', 'trim'] }, F => `\`\${${F.f()}}-\${${F.s()}}\`.replace(${F.f()}.trim(), ${F.s()})`)
 form('tpl-receiver-trim-then-concat-tpl-arg', { ops: ['tpl', 'trim', 'concat'] }, F => `\`\${${F.s()}} \`.trim().concat(\`\${${F.f()}}\`, ${F.f()})`)
+// templates with a STRING-literal substitution next to text that would read as `${` if the two were glued together
+// (the template is an exclusion; the `+` around it gets the file printed)
+form('tpl-literal-dollar-before-brace', { ops: ['+', 'tpl'] }, F => `${F.f()} + \`cost: \${'$'}{\${${F.s()}}}\``)
+form('tpl-dollar-before-literal-brace', { ops: ['+', 'tpl'] }, F => `${F.f()} + \`a$\${'{'}\${${F.s()}}}\``)
+form('tpl-literal-backtick-and-backslash', { ops: ['+', 'tpl'] }, F => `${F.f()} + \`q\${'\\\\'}\${'\`'}\${${F.s()}}\${'\\n$'}{z}\``)
 form('tpl-bare-seq-subst', { ops: ['tpl'] }, F => `\`\${${F.f()}, ${F.s()}}-\${${F.f()}}\``)
 form('tpl-nosubst', { ops: [], instr: false }, F => `\`plain${F.id()}\``)
 form('tpl-alias', { ops: ['tpl'] }, F => { const a = F.loc(); return `\`\${${a}}-\${(${a} = ${F.s()}, ${F.f()})}-\${${a}}\`` })
@@ -222,6 +227,9 @@ form('proto-call-paren-class-path', { ops: ['concat'], nodemand: true }, F => `(
 // the method is missing on the prototype object: reading `.call` of undefined throws BEFORE the arguments are evaluated (D35)
 form('proto-call-missing-method', { ops: ['concat'], nodemand: true, kf: 'D35' }, F => `Number.prototype.concat.call(${F.loc()}, ${F.f()})`)
 // exotic apply shapes (D38): the whole argument list spread, a third argument that apply ignores
+// the this value arrives through a spread, the argument list is written out after it
+form('proto-apply-spread-this-then-list', { ops: ['concat'], nodemand: true }, F => `String.prototype.concat.apply(...[${F.s()}], [${F.s()}, ${F.f()}])`)
+form('proto-call-spread-this-then-args', { ops: ['concat'], nodemand: true }, F => `String.prototype.concat.call(...[${F.s()}], ${F.s()}, ${F.f()})`)
 form('proto-apply-spread-everything', { ops: ['concat'], nodemand: true, kf: 'D38' }, F => `String.prototype.concat.apply(...[${F.loc()}, [${F.s()}, ${F.f()}]])`)
 form('proto-apply-ignored-third-argument', { ops: ['concat'], nodemand: true, kf: 'D38' }, F => `String.prototype.concat.apply(${F.loc()}, [${F.s()}], ${F.f()})`)
 form('proto-apply-arraylit', { ops: ['concat'] }, F => `String.prototype.concat.apply(${F.loc()}, [${F.s()}, ${F.lit()}, ${F.f()}])`)
